@@ -29,9 +29,12 @@ THEOREMS = ['RB.Rewrite.c14_rerun_filters_exactly', 'RB.Rewrite.c14_rewrite_atom
 # ------------------------------------------------------------------ scenarios
 def gen_params(rng, idx, tier):
     fixed = [
-        {'t': ['B', 'C'], 'u': None, 'u_file': None, 'invocations': 2, 'iterations': 1, 'crits': 1, 'profile': False},
+        # the data file is a symbolic link to a file on another file system
+        {'t': ['B', 'C'], 'u': None, 'u_file': None, 'invocations': 2, 'iterations': 1, 'crits': 1, 'profile': False,
+         'link': 'other_fs'},
+        # the data file is in another directory than the working directory, and a relative link
         {'t': ['B', 'C', 'D'], 'u': ['X', 'Y'], 'u_file': None, 'invocations': 2, 'iterations': 2, 'crits': 0,
-         'profile': False},
+         'profile': False, 'data_dir': 'out', 'link': 'relative'},
         {'t': ['B', 'C'], 'u': None, 'u_file': None, 'invocations': 2, 'iterations': 1, 'crits': 0, 'profile': True},
         # three experiments, three data files: one -r rewrites up to three files one after the other
         {'t': ['B', 'C'], 'u': ['X'], 'u_file': 'u.data', 'v': ['P', 'Q'], 'v_file': 'v.data', 'invocations': 1,
@@ -63,7 +66,9 @@ def gen_params(rng, idx, tier):
             'u_file': rng.choice([None, 'u.data']) if nu and not profile else None,
             'invocations': rng.randint(1, 3), 'iterations': 1 if profile else rng.randint(1, 3),
             'crits': 0 if profile else rng.randint(0, 2), 'profile': profile,
-            'damaged': [rng.randint(1, 5), rng.randint(0, 10 ** 6)] if rng.random() < 0.35 else None}
+            'damaged': [rng.randint(1, 5), rng.randint(0, 10 ** 6)] if rng.random() < 0.35 else None,
+            'link': rng.choice([None, None, 'other_fs', 'same_fs', 'relative']),
+            'data_dir': rng.choice([None, None, 'out'])}
 
 
 def run_keys(params):
@@ -129,7 +134,7 @@ def select(params, exp, filters):
 
 
 def file_of(params, key_tuple):
-    name = 't.data'
+    name = (params.get('data_dir') + '/' if params.get('data_dir') else '') + 't.data'
     if key_tuple[0] == 'U' and params['u_file']:
         name = params['u_file']
     if key_tuple[0] == 'V' and params.get('v_file'):
@@ -140,12 +145,16 @@ def file_of(params, key_tuple):
 
 
 class World(object):
-    def __init__(self, wd, params):
+    def __init__(self, wd, params, shm=None):
         shutil.rmtree(wd, ignore_errors=True)
         self.params = params
+        self.shm = shm
+        if params.get('data_dir'):
+            os.makedirs(os.path.join(wd, params['data_dir']))
         second = {'benchmarks': params['u'], 'data_file': params['u_file']} if params['u'] else None
         third = {'benchmarks': params['v'], 'data_file': params.get('v_file')} if params.get('v') else None
         self.scn = dd.Scenario(wd, params['t'], params['invocations'], params['iterations'], params['crits'],
+                               data_file=(params['data_dir'] + '/' if params.get('data_dir') else '') + 't.data',
                                second_exp=second, profile=params['profile'], third_exp=third)
         r = self.scn.run(filters=['all'])
         self.problem = None
@@ -163,6 +172,18 @@ class World(object):
         self.base_session = self.scn.session
         if params.get('damaged'):
             self.inject_damaged(params['damaged'])
+        # the first data file is a symbolic link (results kept elsewhere): target on the same file
+        # system, given relatively, or on another file system
+        self.link = None
+        if params.get('link'):
+            f = self.files[0]
+            store = os.path.join(self.shm, 'store-' + os.path.basename(wd)) if params['link'] == 'other_fs' \
+                else os.path.join(wd, 'store')
+            os.makedirs(store, exist_ok=True)
+            target = os.path.join(store, os.path.basename(f) + '.real')
+            self.link = (f, target, os.path.relpath(target, os.path.dirname(self.paths[0]))
+                         if params['link'] == 'relative' else target)
+            self.reset()
 
     def inject_damaged(self, spec):
         """damaged data lines (remains of interrupted writes, hand edits) inside the files that are
@@ -175,12 +196,20 @@ class World(object):
             data = [l for l in lines if l and not l.startswith('#') and l != dd.HDR]
             first = next((i for i, l in enumerate(lines) if not l.startswith('#')), len(lines))
             for _ in range(n):
-                kind = rng.choice(['glued', 'int', 'short1', 'short4', 'float', 'word'])
+                kind = rng.choice(['glued', 'int', 'short1', 'short4', 'float', 'word', 'meta_run', 'meta_bench',
+                                   'comment'])
                 if self.params['profile'] and kind in ('short4', 'float'):
                     kind = 'short1'
                 # (a glued remainder in a profile line is rejected by the JSON check of the last column)
                 src = rng.choice(data) if data else '1\t1\t2.000000\tms\ttotal'
-                if kind == 'glued':
+                if kind == 'meta_run':
+                    # a session was killed while writing a metadata record, the next one appended its '#!' line
+                    bad = '# run_id: 9={"cmdline":"/x/exe h Q","loca' + '#!rebench -D ' + self.scn.conf
+                elif kind == 'meta_bench':
+                    bad = '# benchmark: 9={"name":"Q","comm'[:rng.randint(13, 32)] + '#!rebench -D ' + self.scn.conf
+                elif kind == 'comment':
+                    bad = '# a note that somebody added by hand'
+                elif kind == 'glued':
                     bad = src[:rng.randint(1, max(1, len(src) - 1))] + '#!rebench -D ' + self.scn.conf
                 elif kind == 'int':
                     bad = 'x' + src
@@ -199,15 +228,26 @@ class World(object):
 
     def reset(self):
         for f, p in zip(self.files, self.paths):
+            if self.link and self.link[0] == f:
+                # the data file is a link again, its target holds the old content
+                if os.path.islink(p) or os.path.exists(p):
+                    os.unlink(p)
+                with open(self.link[1], 'w', newline='') as fh:
+                    fh.write(self.old[f])
+                os.symlink(self.link[2], p)
+                continue
             with open(p, 'w', newline='') as fh:
                 fh.write(self.old[f])
-        keep = set(self.files) | {'test.conf'}
-        for n in os.listdir(self.scn.wd):
-            if n not in keep:
-                try:
-                    os.unlink(os.path.join(self.scn.wd, n))
-                except OSError:
-                    pass
+        keep = set(os.path.abspath(p) for p in self.paths) | {os.path.abspath(self.scn.conf)}
+        dirs = set(os.path.dirname(os.path.abspath(p)) for p in self.paths) | {os.path.abspath(self.scn.wd)}
+        for d in dirs:
+            for n in os.listdir(d):
+                q = os.path.join(d, n)
+                if q not in keep and not os.path.isdir(q):
+                    try:
+                        os.unlink(q)
+                    except OSError:
+                        pass
         self.scn.starts = list(self.base_starts)
         self.scn.serial = self.base_serial
         self.scn.session = self.base_session
@@ -683,7 +723,7 @@ def scenario_job(job):
     my_shm = os.path.join(tmp_shm, 'j%d' % i)
     os.makedirs(my_same, exist_ok=True)
     os.makedirs(my_shm, exist_ok=True)
-    world = World(os.path.join(scratch, 'w%d' % i), params)
+    world = World(os.path.join(scratch, 'w%d' % i), params, shm=my_shm)
     acc.count('scenario:%s:%d-runs' % ('profile' if params['profile'] else 'benchmark', len(world.keys)))
     acc.count('file-bytes>8192' if max(len(t) for t in world.old.values()) > 8192 else 'file-bytes<=8192')
     if world.problem:
@@ -693,7 +733,8 @@ def scenario_job(job):
     pending = []
     for j, (exp, filters) in enumerate(sels):
         for placement, tmpdir in (('same_fs', my_same), ('other_fs', my_shm)):
-            do_crash = (j in (1, 2)) if quick else (j < 6)
+            # quick: selection 1 is killed on both temp placements, selection 2 with the temp dir on /dev/shm
+            do_crash = (j == 1 or (j == 2 and placement == 'other_fs')) if quick else (j < 6)
             cp = crash_selector(tier, rng, exhaustive=not quick) if do_crash else None
             obs = observe_selection(acc, world, exp, filters, tmpdir, placement, cp)
             if obs is not None:
@@ -717,7 +758,10 @@ def scenario_job(job):
         mans += model(mops[k:k + 40])
     for o, a in zip(mobs, mans):
         judge_multi(acc, world, o, a)
-    for (exp, filters, extra, fail) in clean_variants(params):
+    cvs = clean_variants(params)
+    if quick and len(cvs) > 6:
+        cvs = cvs[:2] + cvs[2::2][:4]
+    for (exp, filters, extra, fail) in cvs:
         check_clean(acc, world, exp, my_same, model, filters, extra, fail)
     shutil.rmtree(world.scn.wd, ignore_errors=True)
     return acc
@@ -753,7 +797,7 @@ CORPUS_DIR = os.path.join(lib.VERIF, 'harness', 'corpus', 'C14')
 
 
 def run_case_file(ck, acc, w, idx, tmp_same, tmp_shm):
-    world = World(os.path.join(ck.scratch, 'c%d' % idx), w['params'])
+    world = World(os.path.join(ck.scratch, 'c%d' % idx), w['params'], shm=tmp_shm)
     if world.problem:
         acc.disagree('c14: base session did not run as assumed', {'params': w['params']}, {'problem': world.problem}, None)
         return
@@ -804,7 +848,7 @@ def run(ck):
                     run_case_file(ck, acc, w, idx, tmp_same, tmp_shm)
                     acc.count('corpus:' + fn[:-5])
                     idx += 1
-        n_scn = 8 if quick else 160
+        n_scn = 7 if quick else 160
         n_sel = 8 if quick else 25
         jobs = [(i, gen_params(ck.rng, i, ck.tier), ck.seed, ck.tier, n_sel, ck.scratch, tmp_same, tmp_shm)
                 for i in range(n_scn)]
